@@ -61,9 +61,12 @@ PermsFor(n) ==
     [] Fam.orders = "rev" -> {Ident(n), [i \in 1..n |-> n + 1 - i]}
     [] OTHER -> {Ident(n)}
 
+\* shard of a case: decided by the ends of the first two item lists
+Key(a, b) == a[1] + 5 * a[Len(a)] + (IF b = <<>> THEN 0 ELSE 3 * b[1] + 7 * b[Len(b)])
 Init ==
-  /\ s1 \in {s \in SeqsOf(1) : s[1] % Fam.nsh = Fam.sh}
+  /\ s1 \in SeqsOf(1)
   /\ s2 \in SlotSet(2)
+  /\ Key(s1, s2) % Fam.nsh = Fam.sh
   /\ s3 \in SlotSet(3)
   /\ s4 \in SlotSet(4)
   /\ cut \in Cuts(Len(s1))
